@@ -206,6 +206,56 @@ def capture_order_scenarios():
     return out
 
 
+def closure_retention_scenarios():
+    """what a long-lived closure keeps alive (C16 / C01): three variables of one scope hold heap values and are captured in every
+    order; any subset of the closures outlives the scope (stored in globals), the others are locals of the scope.  When the scope
+    has ended, exactly the kept closures, the variables they captured and those variables' values are reachable - a captured
+    variable that was closed must not keep the variables that were open next to it (the VM links the open ones in a list)."""
+    out = []
+    wrappers = ["block", "fn", "fn-return", "while-break", "fiber", "try-throw"]
+    for wrapper, order, keep in itertools.product(wrappers, itertools.permutations("abc"), range(8)):
+        b = Builder()
+        for nme in ("ga", "gb", "gc"):
+            b.var(nme, lit(None))
+        if wrapper == "block":
+            b.block()
+        elif wrapper in ("fn", "fn-return", "fiber"):
+            b.fn("f", [])
+        elif wrapper == "while-break":
+            b.var("n", lit(0))
+            b.while_(bin_("<", b.v("n"), lit(3)))
+            b.expr(b.assign("n", bin_("+", b.v("n"), lit(1))))
+        elif wrapper == "try-throw":
+            b.try_()
+        b.var("a", vec(lit("a0")))
+        b.var("b", tup(lit("b0"), vec(lit(1))))
+        b.var("c", vec(lit("c0"), lit("c1")))
+        for k, x in enumerate(order):
+            if keep & (1 << "abc".index(x)):
+                b.expr(b.assign("g" + x, b.lam([], lambda: b.v(x))))
+            else:
+                b.var("l" + x, b.lam([], lambda: b.v(x)))
+                b.print(call(b.v("l" + x)))
+        if wrapper == "while-break":
+            b.break_()
+        elif wrapper == "fn-return":
+            b.ret(lit(1))
+        elif wrapper == "try-throw":
+            b.throw(lit("out"))
+            b.catch("e")
+            b.print(b.v("e"))
+        b.end()
+        if wrapper in ("fn", "fn-return"):
+            b.expr(call(b.v("f")))
+        elif wrapper == "fiber":
+            b.expr(inv(inv(b.v("Fiber"), "new", b.v("f")), "call"))
+        for x in "abc":
+            if keep & (1 << "abc".index(x)):
+                b.print(call(b.v("g" + x)))
+        out.append(("retain:%s:%s:%d" % (wrapper, "".join(order), keep), b.toks))
+    return out
+
+
 # ---------------------------------------------------------------------------------------------------
 # C08: where the exception is raised x which handlers are active x what the handler bodies do
 def exception_scenarios():
